@@ -744,6 +744,10 @@ def case_vindex(ctx, inp):
     else:
         _blocks_agree(ctx, r, "vindex")
     ctx.branch("vindex")
+    if not got.size:
+        ctx.branch("vindex-no-points")
+    if 0 in shape:
+        ctx.branch("vindex-zero-length-axis")
     kinds = [k for k, _ in inp["index"]]
     for k in set(kinds):
         ctx.branch("vindex-" + k)
@@ -1187,6 +1191,20 @@ def generate(ctx):
             while index and index[-1] == ("slice", [None, None, None]):
                 index.pop()
             index.append(("ellipsis", None))
+        yield "vindex", {"shape": shape, "chunks": chunks, "index": index, "ashapes": ashapes}
+    # vindex with no points, incl. on axes of length zero (their largest chunk is 0)
+    for _ in range(ctx.n(12, 120)):
+        nd = rng.randint(1, 3)
+        shape = [rng.choice([0, 0, 1, 3]) for _ in range(nd)]
+        chunks = [list(random_chunks(rng, s, zeros=0.3)) for s in shape]
+        arr_axes = sorted(rng.sample(range(nd), rng.randint(1, nd)))
+        index, ashapes = [], []
+        for ax in range(nd):
+            if ax in arr_axes:
+                index.append(("array", []))
+                ashapes.append([0])
+            else:
+                index.append(("slice", [None, None, None]))
         yield "vindex", {"shape": shape, "chunks": chunks, "index": index, "ashapes": ashapes}
     for _ in range(ctx.n(60, 900)):
         nd = rng.randint(1, 3)
